@@ -1,0 +1,38 @@
+//go:build verif
+
+// Contracts for package http (HTTP ammo provider construction), checked by /verif/govc. Comment-only: no code.
+package http
+
+// The provider of the configured format over the configured file or inline uris; preload and the other options travel in
+// Config unchanged; nothing is delivered before Run (unbuffered sink).
+//@ func NewProvider
+//@ props C14 C08 C07
+//@ ensures [unknown-format-is-an-error] imp(!conf.Decoder.IsValid(), result1 != nil && result0 == nil && calls(decoders.NewDecoder) == 0)
+//@ ensures [source-failure-is-an-error] imp(calls(uriReadSeekCloser) == 1 && result_of(uriReadSeekCloser, 2) != nil || calls(fileReadSeekCloser) == 1 && result_of(fileReadSeekCloser, 2) != nil, result1 != nil && result0 == nil)
+//@ ensures [decoder-failure-is-an-error] imp(calls(decoders.NewDecoder) == 1 && result_of(decoders.NewDecoder, 1) != nil, result1 != nil && result0 == nil)
+//@ ensures [inline-uris-or-the-file] imp(conf.Decoder.IsValid(), iff(len(conf.Uris) > 0, calls(uriReadSeekCloser) == 1) && iff(len(conf.Uris) == 0, calls(fileReadSeekCloser) == 1))
+//@ ensures [provider-with-the-given-options] imp(result1 == nil, typeis(result0, *provider.Provider) && result0.(*provider.Provider).Config == conf && result0.(*provider.Provider).Decoder == result_of(decoders.NewDecoder, 0) && cap(result0.(*provider.Provider).Sink) == 0 && !closed(result0.(*provider.Provider).Sink))
+//@ at call decoders.NewDecoder assert [the-configuration-and-the-opened-source] arg(conf) == conf0
+//@ at call fileReadSeekCloser assert [the-configured-file] arg(path) == conf.File && arg(fs) == fs0
+//@ at call uriReadSeekCloser assert arg(conf) == conf0
+
+//@ func fileReadSeekCloser
+//@ props C14 C08
+//@ ensures [a-file-is-required] imp(path == "", result2 != nil && calls(fs.Open) == 0)
+//@ ensures [open-failure-is-an-error] imp(path != "", calls(fs.Open) == 1 && iff(result2 != nil, result_of(fs.Open, 1) != nil))
+//@ ensures [the-opened-file-is-read-and-closed] imp(result2 == nil, result0 == box(result_of(fs.Open, 0)) && result1 == box(result_of(fs.Open, 0)))
+//@ at call fs.Open assert arg(name) == path0
+
+// Inline uris: only for the uri format and without a file; the lines of the pseudo file are the uris in order.
+//@ func uriReadSeekCloser
+//@ props C14 C08 C07
+//@ modifies nothing
+//@ ensures [uri-format-only] imp(conf.Decoder != config.DecoderURI, result2 != nil)
+//@ ensures [not-together-with-a-file] imp(conf.File != "", result2 != nil)
+//@ ensures [accepted-otherwise] imp(conf.Decoder == config.DecoderURI && conf.File == "", result2 == nil && result0 != nil && result1 != nil)
+//@ at call strings.Join assert [one-uri-per-line-in-order] arg(a0) == conf.Uris && arg(a1) == "\n"
+
+//@ func (fc *fakeCloser) Close
+//@ props C14
+//@ modifies nothing
+//@ ensures result == nil
